@@ -5,6 +5,7 @@
 import ChessVerif.Lemmas.MirrorOutposts
 import ChessVerif.Lemmas.MirrorEndgame
 import ChessVerif.Lemmas.MirrorKPK
+import ChessVerif.Lemmas.MirrorDispatch
 namespace Chess.Props
 
 /-- **C13 on the general branch**: for every well-formed position `p` and every position `q` that carries its colour mirror (ranks
@@ -98,6 +99,31 @@ theorem C13_kpk (p q : Position) (hwf : Spec.wf (Chess.absPos p) = true) (hq : q
   · rw [if_neg hv, if_neg hv]
     exact C13_general_branch p q hwf hq hside hcast
 
+/-- **C13 on six more endgame classes** (KRNKR, KRBKR, KQKR, KNNK, KRKB, KXK — the evaluators that read only the two kings and the piece
+    counts): for every well-formed position whose first claiming class in the dispatch order is one of them, and which that class
+    claims for one strong side only, `PositionScorer::score` of the colour-mirrored position equals that of the position.
+    Lemmas/MirrorDispatch.lean: `endgameScore_class_mirror` (the dispatch picks the same class with the other strong side on the mirror:
+    the classes before it claim nothing on either), `eg_value_simple`.  The hypotheses are decidable facts about the position. -/
+theorem C13_simple_endgame (p q : Position) (hwf : Spec.wf (Chess.absPos p) = true) (hq : q.board = mirrorBoard p.board)
+    (hside : q.side = 1 - p.side) (hcast : q.castling = mirrorRights p.castling)
+    (pre post : List EG) (e : EG) (hord : egOrder = pre ++ e :: post) (he : SimpleEG e) (s : Nat) (hs : s ≤ 1)
+    (hpre : ∀ e0, e0 ∈ pre → egApplies e0 (BBs.of p) p.board 0 = false ∧ egApplies e0 (BBs.of p) p.board 1 = false)
+    (hyes : egApplies e (BBs.of p) p.board s = true) (hno : egApplies e (BBs.of p) p.board (1 - s) = false) :
+    evalPure q = evalPure p := by
+  obtain ⟨hbo, hs1, hkings, hcodes, hcnt⟩ := wf_board_hyps _ hwf
+  have m : MirrorPos p q := ⟨hq, hbo.len, hcodes⟩
+  obtain ⟨ks, hks, _⟩ := hkings s hs
+  obtain ⟨kw, hkw, _⟩ := hkings (1 - s) (by omega)
+  have hv := eg_value_simple m e he s p.side hs ks kw hks hkw
+  have hee := endgameScore_class_mirror m hcnt pre post e hord s p.side hs hs1 hpre hyes hno hv
+  unfold evalPure
+  simp only []
+  rw [hside, hee]
+  by_cases hvn : endgameScore (BBs.of p) p.board p.side ≠ VALUE_NONE
+  · rw [if_pos hvn, if_pos hvn]
+  · rw [if_neg hvn, if_neg hvn]
+    exact C13_general_branch p q hwf hq hside hcast
+
 /-- non-vacuity: a middlegame-like position (kings, a white knight and pawn, a black rook and pawn) is well-formed and no specialised
     endgame claims it or its mirror -/
 def c13gBoard : List Nat := (((((List.replicate 64 0).set 4 6).set 60 12).set 18 2).set 45 10).set 52 7 |>.set 12 1
@@ -127,5 +153,13 @@ def c13kBoard : List Nat := (((List.replicate 64 0).set 53 6).set 42 12).set 44 
 def c13kPos : Position := { side := 0, halfmove := 0, ply := 1, board := c13kBoard, castling := 0, ep := 64, hash := {}, history := [] }
 set_option maxRecDepth 100000 in
 example : Spec.wf (Chess.absPos c13kPos) = true ∧ egApplies .KPK (BBs.of c13kPos) c13kPos.board 0 = true := by decide +kernel
+
+/-- non-vacuity for `C13_simple_endgame`: K+Q (white) against K+R: the six classes before KQKR claim nothing, KQKR claims White only -/
+def c13qBoard : List Nat := ((((List.replicate 64 0).set 4 6).set 60 12).set 27 5).set 45 10
+def c13qPos : Position := { side := 0, halfmove := 0, ply := 1, board := c13qBoard, castling := 0, ep := 64, hash := {}, history := [] }
+set_option maxRecDepth 100000 in
+example : Spec.wf (Chess.absPos c13qPos) = true ∧ egOrder = [EG.KPK, .KPsK, .KRKB, .KRKN, .KNNK, .KNNKP] ++ EG.KQKR :: [.KNBK, .KRNKR, .KRBKR, .KBPsK, .KBPsKB, .KRKP, .KQKP, .KQKRPs, .KmmKm, .KXK] ∧
+    ([EG.KPK, .KPsK, .KRKB, .KRKN, .KNNK, .KNNKP].all fun e0 => !egApplies e0 (BBs.of c13qPos) c13qPos.board 0 && !egApplies e0 (BBs.of c13qPos) c13qPos.board 1) = true ∧
+    egApplies .KQKR (BBs.of c13qPos) c13qPos.board 0 = true ∧ egApplies .KQKR (BBs.of c13qPos) c13qPos.board 1 = false := by decide +kernel
 
 end Chess.Props
